@@ -57,6 +57,9 @@ func selftestDeterminism(args []string) int {
 		if plan.Engine == "curlsim" {
 			flavours = []string{"plain", "race", "purego"}
 		}
+		if prop == "C13" {
+			flavours = []string{"plain", "race", "auto"}
+		}
 		type job struct {
 			flavour string
 			gmp     int
@@ -72,6 +75,9 @@ func selftestDeterminism(args []string) int {
 					}
 					if f == "purego" && rep > 0 {
 						continue
+					}
+					if f == "auto" {
+						n = nPlain / 2
 					}
 					jobs = append(jobs, job{f, g, n})
 				}
@@ -126,6 +132,15 @@ func selftestDeterminism(args []string) int {
 				ref := results[0][run]
 				if j.flavour == "purego" {
 					continue // different build configuration of the system under test; compared with itself only
+				}
+				if j.flavour == "auto" {
+					// more yield points than the plain build: compared with the first auto job
+					for k, jk := range jobs {
+						if jk.flavour == "auto" {
+							ref = results[k][run]
+							break
+						}
+					}
 				}
 				if rec != ref {
 					mismatch++
